@@ -95,6 +95,16 @@ class BaseGotranODECodePrinter(StrPrinter):
     def _print_BooleanTrue(self, expr):
         return "1"
 
+    # sympy turns e.g. tan(x + pi/2) into -cot(x), and the grammar has no cot, sec or csc
+    def _print_cot(self, expr):
+        return f"(1/tan({self._print(expr.args[0])}))"
+
+    def _print_sec(self, expr):
+        return f"(1/cos({self._print(expr.args[0])}))"
+
+    def _print_csc(self, expr):
+        return f"(1/sin({self._print(expr.args[0])}))"
+
     def _print_Piecewise(self, expr):
         # A saved model is the model itself, not a simplified one (sympy uses e.g. the
         # condition Eq(x, y) to rewrite (x*y)**2 as y**4, which has another derivative)
